@@ -511,3 +511,738 @@ Print Assumptions enc_attr_no_panic.
 (* without the invariant the `unwrap()` of ErrorCode::class is reachable *)
 Example enc_error_code_class_witness : av_enc_error_code 30000 [] 4 = VPanic.
 Proof. vm_compute. reflexivity. Qed.
+
+(* ------------------------------------------------------------------------------------ (c) round trips *)
+(* evaluation helpers: lists with an explicit spine, closed comparisons *)
+Ltac is_nat_lit v := lazymatch v with O => idtac | S ?x => is_nat_lit x end.
+Ltac to_nat1 :=
+  match goal with
+  | |- context [N.to_nat ?a] =>
+      let v := eval vm_compute in (N.to_nat a) in
+      is_nat_lit v; change (N.to_nat a) with v
+  end.
+Ltac list_eval :=
+  unfold take, drop; repeat to_nat1;
+  cbn [firstn skipn app av_be16 av_be32 av_be64 av_be_n tl fst snd].
+Ltac guard1 :=
+  match goal with
+  | |- context [N.ltb ?a ?b] =>
+      let v := eval vm_compute in (N.ltb a b) in
+      match v with true => change (N.ltb a b) with true | false => change (N.ltb a b) with false end
+  | |- context [N.leb ?a ?b] =>
+      let v := eval vm_compute in (N.leb a b) in
+      match v with true => change (N.leb a b) with true | false => change (N.leb a b) with false end
+  | |- context [N.eqb ?a ?b] =>
+      let v := eval vm_compute in (N.eqb a b) in
+      match v with true => change (N.eqb a b) with true | false => change (N.eqb a b) with false end
+  end.
+Ltac is_pos_lit p := lazymatch p with xH => idtac | xO ?q => is_pos_lit q | xI ?q => is_pos_lit q end.
+Ltac is_N_lit v := lazymatch v with N0 => idtac | Npos ?p => is_pos_lit p end.
+Ltac nsub1 :=
+  match goal with
+  | |- context [N.sub ?a ?b] => let v := eval vm_compute in (N.sub a b) in is_N_lit v; change (N.sub a b) with v
+  | |- context [N.add ?a ?b] => let v := eval vm_compute in (N.add a b) in is_N_lit v; change (N.add a b) with v
+  end.
+Ltac guards := repeat nsub1; repeat guard1; cbn [av_bind negb andb orb].
+(* decide a comparison that linear arithmetic settles *)
+Ltac lia_guard :=
+  match goal with
+  | |- context [N.ltb ?a ?b] =>
+      first [ replace (N.ltb a b) with false by (symmetry; apply N.ltb_ge; lia)
+            | replace (N.ltb a b) with true by (symmetry; apply N.ltb_lt; lia) ]
+  | |- context [N.leb ?a ?b] =>
+      first [ replace (N.leb a b) with true by (symmetry; apply N.leb_le; lia)
+            | replace (N.leb a b) with false by (symmetry; apply N.leb_gt; lia) ]
+  | |- context [N.eqb ?a ?b] =>
+      first [ replace (N.eqb a b) with true by (symmetry; apply N.eqb_eq; lia)
+            | replace (N.eqb a b) with false by (symmetry; apply N.eqb_neq; lia) ]
+  end.
+Ltac lia_guards := repeat lia_guard; cbn [av_bind negb andb orb].
+
+Lemma av_rd_n_app acc a b : av_rd_n acc (a ++ b) = av_rd_n (av_rd_n acc a) b.
+Proof. revert acc; induction a as [|x a IH]; intros acc; cbn [app av_rd_n]; [reflexivity|apply IH]. Qed.
+Lemma av_rd_be_n : forall k n acc, n < 256 ^ (N.of_nat k) -> av_rd_n acc (av_be_n k n) = acc * 256 ^ (N.of_nat k) + n.
+Proof.
+  induction k as [|k IH]; intros n acc Hn.
+  - cbn. change (256 ^ 0) with 1 in *. lia.
+  - cbn [av_be_n]. rewrite av_rd_n_app. cbn [av_rd_n].
+    replace (N.of_nat (S k)) with (N.of_nat k + 1) in * by lia. rewrite N.pow_add_r in *. change (256 ^ 1) with 256 in *.
+    set (P := 256 ^ N.of_nat k) in *.
+    rewrite IH by (apply N.div_lt_upper_bound; lia).
+    pose proof (N.div_mod n 256 ltac:(lia)). nia.
+Qed.
+Lemma take_len_be_n k n : take (N.of_nat k) (av_be_n k n) = av_be_n k n.
+Proof. rewrite <- (len_be_n k n) at 1. apply take_all. Qed.
+
+Lemma take_be32 n : take 4 (av_be_n 4 n) = av_be_n 4 n. Proof. exact (take_len_be_n 4 n). Qed.
+Lemma take_be64 n : take 8 (av_be_n 8 n) = av_be_n 8 n. Proof. exact (take_len_be_n 8 n). Qed.
+Lemma av_rd_be32 n : n < 4294967296 -> av_rd_n 0 (av_be_n 4 n) = n.
+Proof. intros H. rewrite av_rd_be_n; [reflexivity|exact H]. Qed.
+Lemma av_rd_be64 n : n < 18446744073709551616 -> av_rd_n 0 (av_be_n 8 n) = n.
+Proof. intros H. rewrite av_rd_be_n; [reflexivity|exact H]. Qed.
+Lemma rd16_be16' n : n < 65536 -> rd16 ((n / 256) mod 256) (n mod 256) = n.
+Proof. intros H. unfold rd16. lia. Qed.
+
+(* the statement shape of every family: a value `v` that every large enough buffer receives and that decodes back *)
+Definition rt (k:avk) (hdr:bytes) (a:aval) : Prop :=
+  exists v, (forall room, len v <= room -> av_enc_kind k hdr a room = VOk v) /\ av_dec_kind k hdr v = VOk a.
+
+Lemma dec_enc_u16 hdr n : n < 65536 -> rt AvkU16 hdr (AvU16 n).
+Proof.
+  intros H. exists (av_be16 n). split.
+  - intros room Hr. rewrite len_be16 in Hr. cbn [av_enc_kind]. lia_guards. reflexivity.
+  - cbn [av_dec_kind]. unfold av_dec_u16, av_to. list_eval. rewrite !len_cons, len_nil. guards.
+    cbn [av_rd16]. rewrite rd16_be16' by exact H. reflexivity.
+Qed.
+
+Lemma dec_enc_u32 hdr n : n < 4294967296 -> rt AvkU32 hdr (AvU32 n).
+Proof.
+  intros H. exists (av_be32 n). split.
+  - intros room Hr. rewrite len_be32 in Hr. cbn [av_enc_kind]. lia_guards. reflexivity.
+  - cbn [av_dec_kind]. unfold av_dec_u32. rewrite len_be32. guards.
+    rewrite av_to_ok by (rewrite len_be32; lia). cbn [av_bind].
+    unfold av_be32. rewrite take_be32. rewrite av_rd32_ok by (rewrite len_be_n; lia). cbn [av_bind].
+    rewrite take_be32. rewrite av_rd_be32 by exact H. reflexivity.
+Qed.
+
+Lemma dec_enc_u64 hdr n : n < 18446744073709551616 -> rt AvkU64 hdr (AvU64 n).
+Proof.
+  intros H. exists (av_be64 n). split.
+  - intros room Hr. rewrite len_be64 in Hr. cbn [av_enc_kind]. lia_guards. reflexivity.
+  - cbn [av_dec_kind]. unfold av_dec_u64. rewrite len_be64. guards.
+    rewrite av_to_ok by (rewrite len_be64; lia). cbn [av_bind].
+    unfold av_be64. rewrite take_be64. rewrite av_rd64_ok by (rewrite len_be_n; lia). cbn [av_bind].
+    rewrite take_be64. rewrite av_rd_be64 by exact H. reflexivity.
+Qed.
+
+Lemma dec_enc_empty hdr : rt AvkEmpty hdr AvEmpty.
+Proof. exists []. split; [intros; reflexivity|reflexivity]. Qed.
+
+Lemma dec_enc_text hdr me md s :
+  me <= md -> av_utf8_ok s = true -> len s <= me -> rt (AvkText me md) hdr (AvText s).
+Proof.
+  intros Hm Hu Hl. exists s. split.
+  - intros room Hr. cbn [av_enc_kind]. unfold av_enc_bytes. lia_guards. reflexivity.
+  - cbn [av_dec_kind]. lia_guards. rewrite Hu. reflexivity.
+Qed.
+
+Lemma dec_enc_opaque hdr b : rt AvkOpaque hdr (AvOpaque b).
+Proof.
+  exists b. split; [|reflexivity].
+  intros room Hr. cbn [av_enc_kind]. unfold av_enc_bytes. lia_guards. reflexivity.
+Qed.
+
+Lemma dec_enc_hash hdr b : len b = 32 -> rt AvkHash hdr (AvFixed b).
+Proof.
+  intros H. exists b. split.
+  - intros room Hr. cbn [av_enc_kind]. unfold av_enc_bytes. rewrite H in *. guards. lia_guards. reflexivity.
+  - cbn [av_dec_kind]. rewrite H. guards. reflexivity.
+Qed.
+
+Lemma dec_enc_token hdr b : len b = 8 -> rt AvkToken hdr (AvFixed b).
+Proof.
+  intros H. exists b. split.
+  - intros room Hr. cbn [av_enc_kind]. rewrite H in *. guards. lia_guards. reflexivity.
+  - cbn [av_dec_kind]. rewrite H. guards. rewrite av_to_ok by lia. cbn [av_bind].
+    rewrite <- H. rewrite take_all. reflexivity.
+Qed.
+
+Lemma dec_enc_chan hdr n : n < 65536 -> rt AvkChan hdr (AvChan n).
+Proof.
+  intros H. exists (av_be16 n ++ [0; 0]). split.
+  - intros room Hr. rewrite len_app, len_be16, !len_cons, len_nil in Hr. cbn [av_enc_kind]. lia_guards. reflexivity.
+  - cbn [av_dec_kind]. unfold av_dec_u16, av_to, av_from. list_eval. rewrite !len_cons, len_nil. guards.
+    cbn [av_rd16]. cbn [av_bind]. list_eval. rewrite !len_cons, len_nil. guards. cbn [av_rd16 av_bind].
+    rewrite rd16_be16' by exact H. reflexivity.
+Qed.
+
+Lemma dec_enc_even hdr r : rt AvkEven hdr (AvEven r).
+Proof.
+  exists [if r then 0x80 else 0]. split.
+  - intros room Hr. rewrite !len_cons, len_nil in Hr. cbn [av_enc_kind]. lia_guards. reflexivity.
+  - cbn [av_dec_kind]. unfold av_at. rewrite !len_cons, len_nil. guards. list_eval. cbn [av_bind].
+    destruct r; reflexivity.
+Qed.
+
+Lemma dec_enc_proto hdr p : rt AvkProto hdr (AvProto p).
+Proof.
+  exists [p; 0; 0; 0]. split.
+  - intros room Hr. rewrite !len_cons, len_nil in Hr. cbn [av_enc_kind]. lia_guards. reflexivity.
+  - cbn [av_dec_kind]. unfold av_at. rewrite !len_cons, len_nil. guards. list_eval. reflexivity.
+Qed.
+
+Lemma dec_enc_fam hdr f : (f =? 1) || (f =? 2) = true -> rt AvkFam hdr (AvFam f).
+Proof.
+  intros H. exists [f; 0; 0; 0]. split.
+  - intros room Hr. rewrite !len_cons, len_nil in Hr. cbn [av_enc_kind]. rewrite H. lia_guards. reflexivity.
+  - cbn [av_dec_kind]. unfold av_dec_family, av_at. rewrite !len_cons, len_nil. guards. list_eval. cbn [av_bind].
+    rewrite H. reflexivity.
+Qed.
+
+Lemma dec_enc_icmp hdr ty code data :
+  ty <= 127 -> code <= 511 -> len data = 4 -> rt AvkIcmp hdr (AvIcmp ty code data).
+Proof.
+  intros Ht Hc Hd.
+  destruct data as [|d0 [|d1 [|d2 [|d3 [|d4 data]]]]]; rewrite ?len_cons, ?len_nil in Hd; try lia.
+  clear Hd.
+  exists ([0; 0] ++ av_be16 (ty * 512 + code) ++ [d0; d1; d2; d3]). split.
+  - intros room Hr. rewrite !len_app, len_be16, !len_cons, len_nil in Hr.
+    cbn [av_enc_kind]. rewrite !len_cons, len_nil. guards. lia_guards. reflexivity.
+  - cbn [av_dec_kind]. list_eval. rewrite !len_cons, len_nil. guards.
+    unfold av_slice. rewrite !len_cons, len_nil. guards. list_eval. cbn [av_bind].
+    unfold av_dec_u16, av_to. rewrite !len_cons, len_nil. guards. list_eval. cbn [av_rd16 av_bind].
+    rewrite rd16_be16' by lia.
+    replace ((ty * 512 + code) / 512) with ty by lia. replace ((ty * 512 + code) mod 512) with code by lia.
+    lia_guards. reflexivity.
+Qed.
+
+Lemma take_len_eq n l : len l = n -> take n l = l.
+Proof. intros <-. apply take_all. Qed.
+Lemma drop4_cons a b c d (l:bytes) : drop 4 (a :: b :: c :: d :: l) = l.
+Proof. reflexivity. Qed.
+Lemma drop2_cons a b (l:bytes) : drop 2 (a :: b :: l) = l.
+Proof. reflexivity. Qed.
+Lemma drop1_cons a (l:bytes) : drop 1 (a :: l) = l.
+Proof. reflexivity. Qed.
+Lemma take2_cons a b (l:bytes) : take 2 (a :: b :: l) = [a; b].
+Proof. reflexivity. Qed.
+
+Lemma dec_sockaddr_enc (v6:bool) port ip :
+  port < 65536 -> len ip = (if v6 then 16 else 4) ->
+  av_dec_sockaddr ([0; if v6 then 2 else 1] ++ av_be16 port ++ ip) = VOk (v6, port, ip).
+Proof.
+  intros Hp Hl. unfold av_dec_sockaddr, av_at, av_slice. cbn [app av_be16 av_be_n]. rewrite !len_cons, Hl.
+  destruct v6; guards; rewrite drop1_cons, drop2_cons, take2_cons, drop4_cons; cbn [av_bind av_rd16]; guards;
+    rewrite rd16_be16' by exact Hp; rewrite take_len_eq by exact Hl; reflexivity.
+Qed.
+
+Lemma dec_enc_addr hdr (v6:bool) port ip :
+  port < 65536 -> len ip = (if v6 then 16 else 4) -> rt AvkAddr hdr (AvAddr v6 port ip).
+Proof.
+  intros Hp Hl. exists ([0; if v6 then 2 else 1] ++ av_be16 port ++ ip). split.
+  - intros room Hr. rewrite len_app, len_app, len_be16, !len_cons, len_nil, Hl in Hr.
+    cbn [av_enc_kind]. rewrite Hl. destruct v6; guards; lia_guards; reflexivity.
+  - cbn [av_dec_kind]. rewrite dec_sockaddr_enc by assumption. reflexivity.
+Qed.
+
+Lemma lxor_lt_pow2 a b n : a < 2 ^ n -> b < 2 ^ n -> N.lxor a b < 2 ^ n.
+Proof.
+  intros Ha Hb.
+  destruct (N.eq_dec a 0) as [->|Na]; [rewrite N.lxor_0_l; exact Hb|].
+  destruct (N.eq_dec b 0) as [->|Nb]; [rewrite N.lxor_0_r; exact Ha|].
+  destruct (N.eq_dec (N.lxor a b) 0) as [->|Nx]; [lia|].
+  apply N.log2_lt_pow2; [lia|].
+  apply N.log2_lt_pow2 in Ha; [|lia]. apply N.log2_lt_pow2 in Hb; [|lia].
+  pose proof (N.log2_lxor a b). lia.
+Qed.
+Lemma lxor_invol a k : N.lxor (N.lxor a k) k = a.
+Proof. rewrite N.lxor_assoc, N.lxor_nilpotent, N.lxor_0_r. reflexivity. Qed.
+Lemma xor_bytes_invol : forall a k, av_xor_bytes (av_xor_bytes a k) k = a.
+Proof.
+  induction a as [|x a IH]; intros k; [destruct k; reflexivity|].
+  destruct k as [|y k]; [reflexivity|]. cbn [av_xor_bytes]. rewrite lxor_invol, IH. reflexivity.
+Qed.
+Lemma len_xor_bytes : forall a k, len (av_xor_bytes a k) = len a.
+Proof.
+  induction a as [|x a IH]; intros k; [destruct k; reflexivity|].
+  destruct k as [|y k]; [reflexivity|]. cbn [av_xor_bytes]. rewrite !len_cons, IH. reflexivity.
+Qed.
+
+Lemma dec_enc_xor_addr hdr txid (v6:bool) port ip :
+  av_dec_header hdr = VOk txid ->
+  port < 65536 -> len ip = (if v6 then 16 else 4) -> rt AvkXorAddr hdr (AvAddr v6 port ip).
+Proof.
+  intros Hh Hp Hl.
+  set (key := if v6 then av_cookie ++ txid else av_cookie).
+  exists ([0; if v6 then 2 else 1] ++ av_be16 (N.lxor port 0x2112) ++ av_xor_bytes ip key). split.
+  - intros room Hr. rewrite len_app, len_app, len_be16, len_xor_bytes, !len_cons, len_nil, Hl in Hr.
+    cbn [av_enc_kind]. rewrite Hh. cbn [av_bind av_xor_addr]. fold key. rewrite Hl.
+    destruct v6; guards; lia_guards; reflexivity.
+  - cbn [av_dec_kind]. rewrite Hh. cbn [av_bind].
+    rewrite dec_sockaddr_enc.
+    + cbn [av_bind av_xor_addr]. fold key. rewrite lxor_invol, xor_bytes_invol. reflexivity.
+    + apply (lxor_lt_pow2 _ _ 16); [exact Hp|reflexivity].
+    + rewrite len_xor_bytes. exact Hl.
+Qed.
+
+Lemma land7 c : c < 8 -> N.land c 7 = c.
+Proof. intros H. change 7 with (N.ones 3). rewrite N.land_ones. apply N.mod_small. exact H. Qed.
+
+Lemma dec_error_code_enc x y code reason :
+  300 <= code -> code < 700 -> av_utf8_ok reason = true -> len reason <= 509 ->
+  av_dec_error_code (x :: y :: (code - code mod 100) / 100 :: code mod 100 :: reason) = VOk (code, reason).
+Proof.
+  intros H1 H2 Hu Hl. unfold av_dec_error_code, av_at, av_from. rewrite !len_cons. list_eval. lia_guards.
+  rewrite land7 by lia. lia_guards. rewrite Hu. lia_guards.
+  replace ((code - code mod 100) / 100 * 100 + code mod 100) with code by lia. lia_guards. reflexivity.
+Qed.
+Lemma enc_error_code_ok code reason room :
+  300 <= code -> code < 700 -> len reason <= 509 -> 4 + len reason <= room ->
+  av_enc_error_code code reason room = VOk ([0; 0; (code - code mod 100) / 100; code mod 100] ++ reason).
+Proof. intros H1 H2 Hl Hr. unfold av_enc_error_code. cbv zeta. lia_guards. reflexivity. Qed.
+
+Lemma dec_enc_err hdr code reason :
+  300 <= code -> code < 700 -> av_utf8_ok reason = true -> len reason <= 509 -> rt AvkErr hdr (AvErr code reason).
+Proof.
+  intros H1 H2 Hu Hl. exists ([0; 0; (code - code mod 100) / 100; code mod 100] ++ reason). split.
+  - intros room Hr. rewrite len_app, !len_cons, len_nil in Hr. cbn [av_enc_kind].
+    apply enc_error_code_ok; try assumption; lia.
+  - cbn [av_dec_kind app]. rewrite dec_error_code_enc by assumption. reflexivity.
+Qed.
+
+Lemma dec_enc_aerr hdr fam code reason :
+  (fam =? 1) || (fam =? 2) = true ->
+  300 <= code -> code < 700 -> av_utf8_ok reason = true -> len reason <= 509 -> rt AvkAErr hdr (AvAErr fam code reason).
+Proof.
+  intros Hf H1 H2 Hu Hl. exists (fam :: 0 :: (code - code mod 100) / 100 :: code mod 100 :: reason). split.
+  - intros room Hr. rewrite !len_cons in Hr. cbn [av_enc_kind].
+    rewrite enc_error_code_ok by (try assumption; lia). cbn [av_bind]. rewrite Hf. lia_guards. reflexivity.
+  - cbn [av_dec_kind]. unfold av_dec_family, av_at. rewrite !len_cons. list_eval. lia_guards. rewrite Hf.
+    rewrite dec_error_code_enc by assumption. reflexivity.
+Qed.
+
+(* PASSWORD-ALGORITHM *)
+Definition plen (p:option bytes) : N := match p with Some b => len b | None => 0 end.
+Definition pbytes (p:option bytes) : bytes := match p with Some b => b | None => [] end.
+Definition alg_bytes (alg:N) (p:option bytes) : bytes := av_be16 alg ++ av_be16 (plen p) ++ pbytes p.
+Definition popt_ok (p:option bytes) : Prop := match p with Some b => 0 < len b /\ len b + 4 < 65536 | None => True end.
+
+Lemma len_alg_bytes alg p : len (alg_bytes alg p) = 4 + plen p.
+Proof. unfold alg_bytes. rewrite !len_app, !len_be16. destruct p; cbn [plen pbytes]; rewrite ?len_nil; lia. Qed.
+
+Lemma enc_alg_ok alg p room : 4 + plen p <= room -> plen p < 65536 -> av_enc_alg alg p room = VOk (alg_bytes alg p).
+Proof.
+  intros H1 H2. unfold av_enc_alg. cbv zeta. fold (plen p). fold (pbytes p). lia_guards. reflexivity.
+Qed.
+
+Lemma dec_alg_enc alg p tail : alg < 65536 -> popt_ok p ->
+  av_dec_alg (alg_bytes alg p ++ tail) = VOk (alg, p, 4 + plen p).
+Proof.
+  intros Ha Hp. unfold av_dec_alg, av_to, av_slice, alg_bytes.
+  assert (Hl : plen p + 4 < 65536) by (destruct p; cbn [plen popt_ok] in *; lia).
+  cbn [app av_be16 av_be_n]. rewrite !len_cons, len_app. fold (len (pbytes p)).
+  assert (Lp : len (pbytes p) = plen p) by (destruct p; reflexivity).
+  rewrite Lp. lia_guards. rewrite take2_cons. cbn [av_rd16 av_bind]. rewrite rd16_be16' by exact Ha.
+  guards. lia_guards. rewrite drop2_cons, take2_cons. cbn [av_rd16 av_bind]. rewrite rd16_be16' by lia.
+  lia_guards. rewrite drop4_cons.
+  replace (plen p + 4 - 4) with (len (pbytes p)) by lia. rewrite take_app_exact. cbn [av_bind].
+  destruct p as [b|]; cbn [plen pbytes popt_ok] in *.
+  - replace (0 <? len b) with true by (symmetry; apply N.ltb_lt; lia). reflexivity.
+  - guards. reflexivity.
+Qed.
+
+Lemma dec_enc_alg hdr alg p : alg < 65536 -> popt_ok p -> rt AvkAlg hdr (AvAlg alg p).
+Proof.
+  intros Ha Hp. exists (alg_bytes alg p). split.
+  - intros room Hr. rewrite len_alg_bytes in Hr. cbn [av_enc_kind]. apply enc_alg_ok; [exact Hr|].
+    destruct p; cbn [plen popt_ok] in *; lia.
+  - cbn [av_dec_kind]. rewrite <- (app_nil_r (alg_bytes alg p)). rewrite dec_alg_enc by assumption. reflexivity.
+Qed.
+
+(* UNKNOWN-ATTRIBUTES *)
+Lemma existsb_eqb_false x (l:list N) : ~ In x l -> existsb (N.eqb x) l = false.
+Proof.
+  induction l as [|y l IH]; intros H; [reflexivity|]. cbn [existsb].
+  destruct (N.eqb_spec x y) as [->|Ne]; [exfalso; apply H; left; reflexivity|].
+  apply IH. intros I. apply H. right. exact I.
+Qed.
+Lemma av_nodup_spec (l:list N) : av_nodup l = true -> NoDup l.
+Proof.
+  induction l as [|x l IH]; intros H; [constructor|]. cbn [av_nodup] in H. apply andb_prop in H as [H1 H2].
+  constructor; [|apply IH; exact H2].
+  intros I. apply negb_true_iff in H1. assert (E : existsb (N.eqb x) l = true).
+  { apply existsb_exists. exists x. split; [exact I|apply N.eqb_refl]. }
+  congruence.
+Qed.
+Lemma dec_uattrs_enc : forall l acc,
+  Forall (fun x => x < 65536) l -> NoDup l -> (forall x, In x l -> ~ In x acc) ->
+  av_dec_uattrs (flat_map av_be16 l) acc = VOk (acc ++ l).
+Proof.
+  induction l as [|x l IH]; intros acc Hf Hn Hd.
+  - cbn. rewrite app_nil_r. reflexivity.
+  - inversion Hf as [|? ? Hx Hf']; subst. inversion Hn as [|? ? Hx' Hn']; subst.
+    cbn [flat_map av_be16 av_be_n app av_dec_uattrs]. rewrite rd16_be16' by exact Hx.
+    unfold av_ua_add. rewrite existsb_eqb_false by (apply Hd; left; reflexivity).
+    rewrite IH; [rewrite <- app_assoc; reflexivity|exact Hf'|exact Hn'|].
+    intros y Hy I. apply in_app_or in I as [I|[<-|[]]]; [apply (Hd y); [right; exact Hy|exact I]|].
+    apply Hx'. exact Hy.
+Qed.
+Lemma len_flat_be16 (l:list N) : len (flat_map av_be16 l) = 2 * len l.
+Proof.
+  induction l as [|x l IH]; [reflexivity|]. cbn [flat_map]. rewrite len_app, len_be16, IH, len_cons. lia.
+Qed.
+Lemma dec_enc_uattrs hdr l :
+  Forall (fun x => x < 65536) l -> NoDup l -> rt AvkUAttrs hdr (AvUAttrs l).
+Proof.
+  intros Hf Hn. exists (flat_map av_be16 l). split.
+  - intros room Hr. rewrite len_flat_be16 in Hr. cbn [av_enc_kind]. lia_guards. reflexivity.
+  - cbn [av_dec_kind]. rewrite len_flat_be16.
+    replace (N.land (2 * len l) 1) with 0.
+    + guards. rewrite dec_uattrs_enc; [reflexivity|exact Hf|exact Hn|]. intros x _ [].
+    + change 1 with (N.ones 1). rewrite N.land_ones. change (2 ^ 1) with 2. lia.
+Qed.
+
+(* USERNAME (the ASCII fragment of the OpaqueString profile) *)
+Lemma ascii_utf8 : forall s, forallb (fun b => b <? 0x80) s = true -> av_utf8 s = Some s.
+Proof.
+  induction s as [|b s IH]; intros H; [reflexivity|]. cbn [forallb] in H. apply andb_prop in H as [H1 H2].
+  rewrite av_utf8_cons_eq, H1, (IH H2). reflexivity.
+Qed.
+Lemma forallb_impl {A} (f g:A -> bool) l : (forall x, f x = true -> g x = true) -> forallb f l = true -> forallb g l = true.
+Proof. intros H. induction l as [|x l IH]; [reflexivity|]. cbn [forallb]. rewrite !andb_true_iff. intros [H1 H2]. split; auto. Qed.
+Lemma existsb_false_of_forallb {A} (f g:A -> bool) l :
+  (forall x, f x = true -> g x = false) -> forallb f l = true -> existsb g l = false.
+Proof.
+  intros H. induction l as [|x l IH]; [reflexivity|]. cbn [forallb existsb]. rewrite andb_true_iff. intros [H1 H2].
+  rewrite (H x H1), (IH H2). reflexivity.
+Qed.
+Lemma dec_enc_user hdr s : av_ascii_print s = true -> 0 < len s -> len s < 509 -> rt AvkUser hdr (AvUser s).
+Proof.
+  intros Ha H0 Hl. exists s. split.
+  - intros room Hr. cbn [av_enc_kind]. unfold av_enc_bytes. lia_guards. reflexivity.
+  - cbn [av_dec_kind]. unfold av_utf8_ok. rewrite ascii_utf8.
+    + cbn [negb]. lia_guards. unfold av_precis.
+      destruct s as [|b s]; [rewrite len_nil in H0; lia|].
+      assert (E1 : existsb av_is_ctl (b :: s) = false).
+      { apply (existsb_false_of_forallb (fun b => (0x20 <=? b) && (b <=? 0x7E))); [|exact Ha].
+        intros x Hx. apply andb_prop in Hx as [Hx1 Hx2]. apply N.leb_le in Hx1, Hx2.
+        unfold av_is_ctl. apply orb_false_iff. split; [apply N.ltb_ge; lia|apply N.eqb_neq; lia]. }
+      assert (E2 : existsb (fun b => 0x80 <=? b) (b :: s) = false).
+      { apply (existsb_false_of_forallb (fun b => (0x20 <=? b) && (b <=? 0x7E))); [|exact Ha].
+        intros x Hx. apply andb_prop in Hx as [Hx1 Hx2]. apply N.leb_le in Hx1, Hx2. apply N.leb_gt. lia. }
+      rewrite E1, E2. reflexivity.
+    + revert Ha. apply forallb_impl. intros x Hx. apply andb_prop in Hx as [_ Hx]. apply N.leb_le in Hx. apply N.ltb_lt. lia.
+Qed.
+
+(* PASSWORD-ALGORITHMS: padding between the entries only *)
+Fixpoint algs_bytes (l:list (N * option bytes)) : bytes :=
+  match l with
+  | [] => []
+  | (a, p) :: rest =>
+      alg_bytes a p ++ match rest with [] => [] | _ => zeros (pad (len (alg_bytes a p))) ++ algs_bytes rest end
+  end.
+Definition alg_entry_ok (e:N * option bytes) : Prop := fst e < 65536 /\ popt_ok (snd e).
+
+Lemma enc_algs_ok : forall l room out,
+  Forall alg_entry_ok l -> len out + len (algs_bytes l) <= room ->
+  av_enc_algs l room out = VOk (out ++ algs_bytes l).
+Proof.
+  induction l as [|[a p] rest IH]; intros room out Hf Hr.
+  - cbn. rewrite app_nil_r. reflexivity.
+  - inversion Hf as [|? ? [Ha Hp] Hf']; subst. cbn [fst snd] in *.
+    cbn [av_enc_algs algs_bytes] in *. cbv zeta.
+    assert (Hpl : plen p < 65536) by (destruct p; cbn [plen popt_ok] in *; lia).
+    rewrite len_app, len_alg_bytes in Hr.
+    destruct (N.ltb_spec room (len out)); [lia|].
+    rewrite enc_alg_ok by lia. cbn [av_bind].
+    destruct rest as [|e rest]; [rewrite app_nil_r; reflexivity|].
+    rewrite len_app, len_zeros in Hr. rewrite !len_app, len_alg_bytes in *.
+    destruct (N.ltb_spec room (len out + (4 + plen p))); [lia|].
+    destruct (N.ltb_spec (room - (len out + (4 + plen p))) (pad (4 + plen p))); [lia|].
+    rewrite IH; [rewrite <- !app_assoc; reflexivity|exact Hf'|].
+    rewrite !len_app, len_zeros, len_alg_bytes. lia.
+Qed.
+
+Lemma av_dec_algs_step f x rest size acc :
+  av_dec_algs (S f) (x :: rest) size acc =
+    if len (x :: rest) <? pad size then VErr
+    else vlet sub := av_from (x :: rest) (pad size) in
+         vlet r := av_dec_alg sub in
+         let '(alg, params, l) := r in
+         vlet rest' := av_from sub l in av_dec_algs f rest' l (acc ++ [(alg, params)]).
+Proof. reflexivity. Qed.
+
+Lemma dec_algs_one f size acc a p tail : a < 65536 -> popt_ok p ->
+  av_dec_algs (S f) (zeros (pad size) ++ alg_bytes a p ++ tail) size acc
+  = av_dec_algs f tail (len (alg_bytes a p)) (acc ++ [(a, p)]).
+Proof.
+  intros Ha Hp.
+  assert (L4 : 4 <= len (alg_bytes a p)) by (rewrite len_alg_bytes; lia).
+  set (whole := zeros (pad size) ++ alg_bytes a p ++ tail) in *.
+  assert (Lw : len whole = pad size + len (alg_bytes a p) + len tail)
+    by (unfold whole; rewrite !len_app, len_zeros; lia).
+  assert (Ed : drop (pad size) whole = alg_bytes a p ++ tail).
+  { unfold whole. rewrite <- (len_zeros (pad size)) at 1. apply drop_app_exact. }
+  destruct whole as [|x w] eqn:Ew; [rewrite len_nil in Lw; lia|].
+  rewrite av_dec_algs_step.
+  destruct (N.ltb_spec (len (x :: w)) (pad size)); [lia|].
+  rewrite av_from_ok by lia. cbn [av_bind].
+  rewrite Ed, dec_alg_enc by assumption. cbn [av_bind].
+  rewrite <- (len_alg_bytes a p). rewrite av_from_ok by (rewrite len_app; lia). cbn [av_bind].
+  rewrite drop_app_exact. reflexivity.
+Qed.
+
+Lemma dec_algs_enc : forall l fuel size acc,
+  l <> [] -> Forall alg_entry_ok l ->
+  (length (zeros (pad size) ++ algs_bytes l) <= fuel)%nat ->
+  av_dec_algs fuel (zeros (pad size) ++ algs_bytes l) size acc = VOk (acc ++ l).
+Proof.
+  induction l as [|[a p] rest IH]; intros fuel size acc Hne Hf Hfuel; [congruence|].
+  inversion Hf as [|? ? [Ha Hp] Hf']; subst. cbn [fst snd] in *.
+  assert (L4 : (4 <= length (alg_bytes a p))%nat).
+  { pose proof (len_alg_bytes a p) as L. unfold len in L. lia. }
+  cbn [algs_bytes] in *.
+  destruct fuel as [|f]; [rewrite !app_length in Hfuel; lia|].
+  rewrite dec_algs_one by assumption.
+  destruct rest as [|e rest].
+  - destruct f; reflexivity.
+  - rewrite IH; [rewrite <- app_assoc; reflexivity|discriminate|exact Hf'|].
+    rewrite !app_length in Hfuel. rewrite app_length. lia.
+Qed.
+
+Lemma dec_enc_algs hdr l : Forall alg_entry_ok l -> rt AvkAlgs hdr (AvAlgs l).
+Proof.
+  intros Hf. exists (algs_bytes l). split.
+  - intros room Hr. cbn [av_enc_kind]. rewrite enc_algs_ok; [reflexivity|exact Hf|rewrite len_nil; lia].
+  - cbn [av_dec_kind]. destruct l as [|e l]; [reflexivity|].
+    change (algs_bytes (e :: l)) with (zeros (pad 0) ++ algs_bytes (e :: l)) at 2.
+    rewrite dec_algs_enc; [reflexivity|discriminate|exact Hf|]. cbn [app zeros]. change (zeros (pad 0)) with (@nil N). cbn [app]. lia.
+Qed.
+
+(* REALM / NONCE: canonical quoted texts (accepted by the grammar, nothing to trim) *)
+Lemma utf8_nil s : av_utf8 s = Some [] -> s = [].
+Proof.
+  destruct s as [|b0 r]; [reflexivity|]. intros H.
+  destruct (av_utf8_cons_inv _ _ _ H) as (c & cs & h & t & E & _). discriminate.
+Qed.
+Lemma av_bytes_eqb_refl s : av_bytes_eqb s s = true.
+Proof. induction s as [|x s IH]; [reflexivity|]. cbn [av_bytes_eqb]. rewrite N.eqb_refl, IH. reflexivity. Qed.
+Lemma boundary_end s : av_is_boundary s (len s) = true.
+Proof.
+  unfold av_is_boundary. destruct (len s =? 0); [reflexivity|].
+  destruct (N.ltb_spec (len s) (len s)); [lia|]. rewrite N.eqb_refl. reflexivity.
+Qed.
+Lemma rev_last_head (l:list N) : l <> [] -> exists t, rev l = last l 0 :: t.
+Proof.
+  intros H. pose proof (app_removelast_last 0 H) as E.
+  assert (R : rev l = rev (removelast l ++ [last l 0])) by (f_equal; exact E).
+  rewrite rev_app_distr in R. cbn [rev app] in R. eauto.
+Qed.
+
+Lemma dec_quoted_string_ok s : av_quoted_ok s = true -> av_dec_quoted_string s = VOk s.
+Proof.
+  unfold av_quoted_ok, av_dec_quoted_string. destruct (av_utf8 s) as [cps|] eqn:Eu; [|discriminate].
+  intros H. apply andb_prop in H as [Hq Ht]. unfold av_formatted. rewrite Hq. cbn [negb andb].
+  destruct cps as [|c cs].
+  - apply utf8_nil in Eu. subst s. reflexivity.
+  - cbn [av_trimmed] in Ht. apply andb_prop in Ht as [T1 T2]. apply negb_true_iff in T1, T2.
+    cbn [av_skip_start]. rewrite T1. unfold av_str_from. cbn [av_is_boundary N.eqb]. 
+    change (av_is_boundary s 0) with true. cbn [av_bind]. rewrite drop_0.
+    rewrite (av_chars_some _ _ Eu). unfold av_skip_trail.
+    destruct (rev_last_head (c :: cs)) as (t & ->); [discriminate|].
+    cbn [av_skip_start]. rewrite T2.
+    destruct (N.ltb_spec (len s) 0); [lia|].
+    unfold av_str_to. rewrite N.sub_0_r, boundary_end, take_all. cbn [av_bind].
+    rewrite av_bytes_eqb_refl. reflexivity.
+Qed.
+
+Lemma dec_enc_quoted hdr s : av_quoted_ok s = true -> len s <= 509 -> rt AvkQuoted hdr (AvQuoted s).
+Proof.
+  intros Hq Hl. exists s. split.
+  - intros room Hr. cbn [av_enc_kind]. unfold av_enc_bytes. lia_guards. reflexivity.
+  - cbn [av_dec_kind]. lia_guards. rewrite dec_quoted_string_ok by exact Hq. reflexivity.
+Qed.
+
+(* ------------------------------------------------------------------------------------ (c) all families *)
+Lemma registry_text ty me md : av_registry ty = Some (AvkText me md) -> me <= md.
+Proof.
+  unfold av_registry.
+  repeat match goal with |- (if ?c then _ else _) = _ -> _ => destruct c end;
+    intros E; try discriminate; injection E as <- <-; lia.
+Qed.
+
+Lemma opt_ok_popt p : av_opt_ok p = true -> popt_ok p.
+Proof.
+  destruct p as [b|]; cbn [av_opt_ok popt_ok]; [|trivial].
+  intros H. apply andb_prop in H as [H H2]. apply andb_prop in H as [_ H1].
+  apply N.ltb_lt in H1, H2. split; assumption.
+Qed.
+Lemma alg_ok_entry e : av_alg_ok e = true -> alg_entry_ok e.
+Proof.
+  unfold av_alg_ok, alg_entry_ok. intros H. apply andb_prop in H as [H1 H2].
+  split; [apply N.ltb_lt; exact H1|apply opt_ok_popt; exact H2].
+Qed.
+Lemma forallb_Forall {A} (f:A -> bool) (P:A -> Prop) l :
+  (forall x, f x = true -> P x) -> forallb f l = true -> Forall P l.
+Proof.
+  intros H. induction l as [|x l IH]; intros F; [constructor|].
+  cbn [forallb] in F. apply andb_prop in F as [F1 F2]. constructor; auto.
+Qed.
+
+Ltac split_wf H :=
+  repeat match type of H with
+  | (_ && _) = true => let H' := fresh H in apply andb_prop in H as [H H']; try split_wf H'
+  end.
+
+(* C01 at the level of one attribute value: under the documented limits the encoder succeeds in every buffer
+   that is large enough and the decoder returns the same value, for all 35 kinds whose value survives the trip
+   (Encodable MESSAGE-INTEGRITY / -SHA256 / FINGERPRINT decode as the Decodable variant; Unknown never encodes) *)
+Theorem dec_enc_attr : forall ud hdr ty a,
+  av_wf ty a = true -> av_hdr_ok hdr = true ->
+  exists v, (forall room, len v <= room -> av_enc_attr hdr ty a room = VOk v) /\ av_dec_attr ud hdr ty v = VOk a.
+Proof.
+  intros ud hdr ty a Hwf Hh. unfold av_wf, av_enc_attr, av_dec_attr in *.
+  destruct (av_registry ty) as [k|] eqn:R; [|discriminate].
+  change (rt k hdr a).
+  destruct k; destruct a; try discriminate.
+  - (* Addr *) split_wf Hwf. apply dec_enc_addr; [apply N.ltb_lt; assumption|].
+    apply N.eqb_eq. assumption.
+  - (* XorAddr *) split_wf Hwf. unfold av_hdr_ok in Hh. destruct (av_dec_header hdr) as [txid| | |] eqn:Eh; try discriminate.
+    apply (dec_enc_xor_addr hdr txid); [exact Eh|apply N.ltb_lt; assumption|apply N.eqb_eq; assumption].
+  - apply dec_enc_u16. apply N.ltb_lt. exact Hwf.
+  - apply dec_enc_u32. apply N.ltb_lt. exact Hwf.
+  - apply dec_enc_u64. apply N.ltb_lt. exact Hwf.
+  - apply dec_enc_empty.
+  - split_wf Hwf. apply dec_enc_text; [eapply registry_text; exact R|assumption|apply N.leb_le; assumption].
+  - split_wf Hwf. apply dec_enc_quoted; [assumption|apply N.leb_le; assumption].
+  - split_wf Hwf. apply dec_enc_user; [assumption|apply N.ltb_lt; assumption|apply N.ltb_lt; assumption].
+  - split_wf Hwf. apply dec_enc_err; [apply N.leb_le|apply N.ltb_lt|idtac|apply N.leb_le]; assumption.
+  - split_wf Hwf. apply dec_enc_aerr; [idtac|apply N.leb_le|apply N.ltb_lt|idtac|apply N.leb_le]; assumption.
+  - apply alg_ok_entry in Hwf. destruct Hwf as [H1 H2]. apply dec_enc_alg; assumption.
+  - apply dec_enc_algs. revert Hwf. apply forallb_Forall. apply alg_ok_entry.
+  - split_wf Hwf. apply dec_enc_uattrs; [|apply av_nodup_spec; assumption].
+    revert Hwf. apply forallb_Forall. intros x Hx. apply N.ltb_lt. exact Hx.
+  - split_wf Hwf. apply dec_enc_hash. apply N.eqb_eq. assumption.
+  - split_wf Hwf. apply dec_enc_token. apply N.eqb_eq. assumption.
+  - apply dec_enc_opaque.
+  - apply dec_enc_chan. apply N.ltb_lt. exact Hwf.
+  - apply dec_enc_even.
+  - apply dec_enc_proto.
+  - apply dec_enc_fam. exact Hwf.
+  - split_wf Hwf. apply dec_enc_icmp; [apply N.leb_le|apply N.leb_le|apply N.eqb_eq]; assumption.
+Qed.
+Print Assumptions dec_enc_attr.
+
+(* the three kinds whose value does not survive the trip: the Encodable variant writes a place holder that
+   post_encode overwrites; what is decoded is the Decodable variant holding the wire bytes *)
+Lemma enc_mi_placeholder hdr room : 20 <= room -> av_enc_kind AvkMI hdr AvMIEnc room = VOk (zeros 20).
+Proof. intros H. cbn [av_enc_kind]. lia_guards. reflexivity. Qed.
+Lemma enc_sha_placeholder hdr room : 32 <= room -> av_enc_kind AvkSha hdr AvShaEnc room = VOk (zeros 32).
+Proof. intros H. cbn [av_enc_kind]. lia_guards. reflexivity. Qed.
+Lemma enc_fp_placeholder hdr room : 4 <= room -> av_enc_kind AvkFp hdr AvFpEnc room = VOk (zeros 4).
+Proof. intros H. cbn [av_enc_kind]. lia_guards. reflexivity. Qed.
+Lemma dec_mi_exact hdr v : len v = 20 -> av_dec_kind AvkMI hdr v = VOk (AvMI v).
+Proof. intros H. cbn [av_dec_kind]. rewrite H. guards. reflexivity. Qed.
+Lemma dec_sha_exact hdr v : len v = 32 -> av_dec_kind AvkSha hdr v = VOk (AvSha v).
+Proof. intros H. cbn [av_dec_kind]. rewrite H. guards. reflexivity. Qed.
+Lemma dec_mi_other hdr v : len v <> 20 -> av_dec_kind AvkMI hdr v = VErr.
+Proof. intros H. cbn [av_dec_kind]. destruct (N.ltb_spec (len v) 20); [reflexivity|]. destruct (N.eqb_spec (len v) 20); [lia|reflexivity]. Qed.
+Lemma dec_sha_other hdr v : len v <> 32 -> av_dec_kind AvkSha hdr v = VErr.
+Proof. intros H. cbn [av_dec_kind]. destruct (N.ltb_spec (len v) 32); [reflexivity|]. destruct (N.eqb_spec (len v) 32); [lia|reflexivity]. Qed.
+
+(* non-vacuity: concrete values inside the documented limits, coded by the model as stun-rs codes them *)
+Definition ex_hdr : bytes := av_suite_hdr 0 [0xB7; 0xE7; 0xA7; 0x01; 0xBC; 0x34; 0xD6; 0x86; 0xFA; 0x87; 0xDF; 0xAE].
+Example ex_hdr_ok : av_hdr_ok ex_hdr = true. Proof. vm_compute. reflexivity. Qed.
+(* RFC 5769 2.2: XOR-MAPPED-ADDRESS 192.0.2.1:32853 under that transaction id *)
+Example ex_xor_mapped_wf : av_wf 0x0020 (AvAddr false 32853 [192; 0; 2; 1]) = true. Proof. vm_compute. reflexivity. Qed.
+Example ex_xor_mapped_bytes :
+  av_enc_attr ex_hdr 0x0020 (AvAddr false 32853 [192; 0; 2; 1]) 8 = VOk [0x00; 0x01; 0xA1; 0x47; 0xE1; 0x12; 0xA6; 0x43].
+Proof. vm_compute. reflexivity. Qed.
+(* RFC 5769 2.3: XOR-MAPPED-ADDRESS [2001:db8:1234:5678:11:2233:4455:6677]:32853 *)
+Example ex_xor_mapped6_bytes :
+  av_enc_attr ex_hdr 0x0020
+    (AvAddr true 32853 [0x20; 0x01; 0x0d; 0xb8; 0x12; 0x34; 0x56; 0x78; 0x00; 0x11; 0x22; 0x33; 0x44; 0x55; 0x66; 0x77]) 20
+  = VOk [0x00; 0x02; 0xa1; 0x47; 0x01; 0x13; 0xa9; 0xfa; 0xa5; 0xd3; 0xf1; 0x79; 0xbc; 0x25; 0xf4; 0xb5; 0xbe; 0xd2; 0xb9; 0xd9].
+Proof. vm_compute. reflexivity. Qed.
+(* a NONCE with a quoted pair, linear white space and an accepted non-ASCII sequence (U+00C0 U+0080) *)
+Example ex_nonce_wf : av_wf 0x0015 (AvQuoted [0x61; 0x5C; 0x22; 0x20; 0x0D; 0x0A; 0x09; 0xC3; 0x80; 0xC2; 0x80; 0x7A]) = true.
+Proof. vm_compute. reflexivity. Qed.
+(* D8 of DESIGN.md: the four bytes a b c BACKSLASH, which the Nonce constructor stores when given that text followed by
+   a double quote, are outside the limits and do not decode *)
+Example ex_nonce_d8 : av_wf 0x0015 (AvQuoted [0x61; 0x62; 0x63; 0x5C]) = false
+  /\ av_dec_attr false ex_hdr 0x0015 [0x61; 0x62; 0x63; 0x5C] = VErr.
+Proof. vm_compute. split; reflexivity. Qed.
+Example ex_error_code_wf : av_wf 0x0009 (AvErr 420 [0x55; 0x6E; 0x6B]) = true. Proof. vm_compute. reflexivity. Qed.
+Example ex_algs_wf : av_wf 0x8002 (AvAlgs [(1, None); (2, Some [7; 7; 7])]) = true. Proof. vm_compute. reflexivity. Qed.
+Example ex_algs_bytes : av_enc_attr ex_hdr 0x8002 (AvAlgs [(2, Some [7; 7; 7]); (1, None)]) 12
+  = VOk [0; 2; 0; 3; 7; 7; 7; 0; 0; 1; 0; 0].
+Proof. vm_compute. reflexivity. Qed.
+
+(* ------------------------------------------------------------------------------------ further facts *)
+(* what a decoder returns satisfies the invariants of the Rust types, so it can be handed to the encoder *)
+Lemma dec_error_code_inv raw code reason : av_dec_error_code raw = VOk (code, reason) -> (300 <=? code) && (code <? 700) = true.
+Proof.
+  unfold av_dec_error_code.
+  repeat match goal with
+  | |- (if ?c then _ else _) = _ -> _ => destruct c eqn:?
+  | |- av_bind ?r _ = _ -> _ => destruct r; cbn [av_bind]
+  end; try discriminate.
+  intros E. injection E as <- <-.
+  match goal with H : (_ || _) = false |- _ => apply orb_false_iff in H as [H1 H2] end.
+  apply N.ltb_ge in H1. apply N.leb_gt in H2. apply andb_true_iff. split; [apply N.leb_le|apply N.ltb_lt]; lia.
+Qed.
+
+Theorem dec_attr_inv : forall ud hdr ty v a, av_dec_attr ud hdr ty v = VOk a -> av_inv a = true.
+Proof.
+  intros ud hdr ty v a. unfold av_dec_attr. destruct (av_registry ty) as [k|]; [|intros E; injection E as <-; reflexivity].
+  destruct k; cbn [av_dec_kind];
+    repeat match goal with
+    | |- (if ?c then _ else _) = _ -> _ => destruct c
+    | |- av_bind ?r _ = _ -> _ => let E := fresh "E" in destruct r as [?| | |] eqn:E; cbn [av_bind]
+    | |- (let '(_, _) := ?p in _) = _ -> _ => destruct p
+    end; try discriminate; try (intros E'; injection E' as <-; reflexivity).
+  - destruct a0 as [code reason]. intros E'. injection E' as <-. cbn [av_inv fst snd]. eapply dec_error_code_inv; eassumption.
+  - destruct a1 as [code reason]. intros E'. injection E' as <-. cbn [av_inv fst snd]. eapply dec_error_code_inv; eassumption.
+Qed.
+Print Assumptions dec_attr_inv.
+
+Corollary dec_then_enc_no_panic : forall ud hdr ty v a hdr' ty' room,
+  av_dec_attr ud hdr ty v = VOk a -> av_enc_attr hdr' ty' a room <> VPanic.
+Proof. intros. apply enc_attr_no_panic. eapply dec_attr_inv. eassumption. Qed.
+
+(* a value encoder never reports more bytes than the buffer it was given holds (C14 at the value level) *)
+Lemma enc_error_code_fits code reason room v : av_enc_error_code code reason room = VOk v -> len v <= room.
+Proof.
+  unfold av_enc_error_code. cbv zeta.
+  destruct (_ <? _); [discriminate|]. destruct (N.ltb_spec room (4 + len reason)); [discriminate|].
+  destruct (_ <? _); [discriminate|]. destruct (_ <? _); [discriminate|]. destruct (_ <? _); [discriminate|].
+  intros E. injection E as <-. rewrite ?len_app, !len_cons, ?len_nil. lia.
+Qed.
+Lemma enc_algs_fits : forall l room out v, len out <= room -> av_enc_algs l room out = VOk v -> len v <= room.
+Proof.
+  induction l as [|[alg p] rest IH]; intros room out v Ho; cbn [av_enc_algs].
+  - intros E. injection E as <-. exact Ho.
+  - cbv zeta. destruct (N.ltb_spec room (len out)); [discriminate|].
+    destruct (av_enc_alg alg p (room - len out)) as [e| | |] eqn:Ee; cbn [av_bind]; try discriminate.
+    apply av_enc_alg_len in Ee as [_ Ee].
+    destruct rest as [|x rest].
+    + intros E. injection E as <-. rewrite len_app. lia.
+    + rewrite len_app. destruct (N.ltb_spec room (len out + len e)); [discriminate|].
+      destruct (N.ltb_spec (room - (len out + len e)) (pad (len e))); [discriminate|].
+      apply IH. rewrite !len_app, len_zeros. lia.
+Qed.
+Lemma enc_bytes_fits room b v : av_enc_bytes room b = VOk v -> len v <= room.
+Proof. unfold av_enc_bytes. destruct (N.ltb_spec room (len b)); [discriminate|]. intros E. injection E as <-. assumption. Qed.
+
+Theorem enc_attr_fits : forall hdr ty a room v, av_enc_attr hdr ty a room = VOk v -> len v <= room.
+Proof.
+  intros hdr ty a room v. unfold av_enc_attr. destruct (av_registry ty) as [k|]; [|discriminate].
+  destruct k; destruct a; cbn [av_enc_kind]; try discriminate;
+    try (apply enc_bytes_fits); try (apply enc_error_code_fits).
+  all: repeat match goal with
+    | |- av_bind ?r _ = _ -> _ => let E := fresh "E" in destruct r as [?| | |] eqn:E; cbn [av_bind av_xor_addr]
+    | |- (if N.ltb ?a ?b then _ else _) = _ -> _ => destruct (N.ltb_spec a b)
+    | |- (if ?c then _ else _) = _ -> _ => let E := fresh "E" in destruct c eqn:E
+    end; try discriminate.
+  all: try (intros E'; injection E' as <-;
+            rewrite ?len_app, ?len_be16, ?len_be32, ?len_be64, ?len_zeros, ?len_cons, ?len_nil, ?len_xor_bytes, ?len_flat_be16;
+            repeat match goal with H : (_ =? _) = true |- _ => apply N.eqb_eq in H end;
+            repeat match goal with H : negb (_ =? _) = false |- _ => apply negb_false_iff, N.eqb_eq in H end;
+            try lia).
+  all: try (apply enc_bytes_fits); try (eapply enc_algs_fits; rewrite len_nil; lia).
+  - destruct v6; repeat match goal with H : negb (_ =? _) = false |- _ => apply negb_false_iff, N.eqb_eq in H end; lia.
+  - destruct v6; repeat match goal with H : negb (_ =? _) = false |- _ => apply negb_false_iff, N.eqb_eq in H end; lia.
+  - match goal with H : av_enc_error_code _ _ _ = VOk ?a |- _ => apply enc_error_code_fits in H; destruct a as [|x t] end;
+      cbn [tl]; rewrite ?len_cons, ?len_nil in *; lia.
+  - intros E'. apply av_enc_alg_len in E' as [_ E']. exact E'.
+Qed.
+Print Assumptions enc_attr_fits.
+
+(* C18 at the value level: `with_unknown_data` changes nothing for a registered type, and for an unregistered one
+   only whether the raw bytes are kept *)
+Theorem dec_attr_unknown_data : forall ud ud' hdr ty v,
+  av_dec_attr ud hdr ty v = av_dec_attr ud' hdr ty v
+  \/ (av_registry ty = None /\ av_dec_attr ud hdr ty v = VOk (AvUnknown ty (if ud then Some v else None))).
+Proof.
+  intros. unfold av_dec_attr. destruct (av_registry ty); [left; reflexivity|right; split; reflexivity].
+Qed.
